@@ -184,8 +184,12 @@ NsVerdict(r) ==
      ELSE "bad"
 
 \* ---- verdict ---------------------------------------------------------------------------------------
+\* the jobs judged here register observers (or edits that cannot be refused) only: a run may fail with the
+\* ambiguity error in strict mode and in no other way
 Verdict(r) ==
-  IF On(r, "C14") /\ r.res = "ok" /\ ~Monotone(r.toks) THEN "C14: ranges overlap or go backwards"
+  IF r.res # "ok" /\ ~(r.strict /\ r.res = "err:ambiguity")
+     THEN (IF On(r, "C14") THEN "C14" ELSE IF On(r, "C16") THEN "C16" ELSE "C03") \o ": a run that has no reason to fail failed: " \o r.res
+  ELSE IF On(r, "C14") /\ r.res = "ok" /\ ~Monotone(r.toks) THEN "C14: ranges overlap or go backwards"
   ELSE IF On(r, "C14") /\ r.res = "ok" /\ ~TextOk(r.toks, 1, -1) THEN "C14: text chunk ranges are not contiguous within their node"
   ELSE IF On(r, "C14") /\ \E i \in 1..Len(r.toks) : r.toks[i].k \in {"st", "et", "cm", "dt"} /\ ~TagRangeOk(r, r.toks[i])
        THEN "C14: a reported range is not exactly one construct of its kind"
